@@ -89,6 +89,111 @@ def strict_fragment(spec: Dict[str, Any]) -> bool:
     return not spec.get("links") and len({g.get("cfw") for g in spec["groups"]}) == 1
 
 
+def gen_cross3(rng: random.Random) -> Dict[str, Any]:
+    """3-5 linked roots over all three frameworks (chain / star / random tree, random orientation and join type), the consumer on the
+    framework of ANY root (not only the hub's): the shapes in which links are inverted, re-ordered and postponed."""
+    from harness import planner_l as pl
+    n = rng.randrange(3, 6)
+    cfws = [rng.choice(pl.CF) for _ in range(n)]
+    kind = rng.choice(["chain", "star", "tree"])
+    links = []
+    for i in range(1, n):
+        a = i - 1 if kind == "chain" else 0 if kind == "star" else rng.randrange(0, i)
+        l, r = (a, i) if rng.random() < 0.6 else (i, a)
+        links.append({"jt": rng.choice(["INNER", "INNER", "LEFT", "OUTER"]), "l": f"R{l}", "r": f"R{r}", "li": ["k"], "ri": ["k"]})
+    rng.shuffle(links)
+    roots = [pl._root(i, cfws[i]) for i in range(n)]
+    ins = [f"v{i}" for i in range(n)]
+    rng.shuffle(ins)
+    return {"groups": roots + [{"name": "D1", "kind": "derived", "cfw": rng.choice(cfws), "features": {"f1": pl._feat(ins)}}],
+            "request": ["f1"], "links": links}
+
+
+def hub_specs() -> List[Dict[str, Any]]:
+    """hub R0 with three spokes, every assignment of the three frameworks in which the hub's framework differs from the consumer's,
+    spokes linked in both orientations: the smallest shape in which a postponed link is released and a later link waits for it."""
+    import itertools
+    from harness import planner_l as pl
+    out = []
+    for cf in itertools.product(pl.CF, repeat=4):
+        for cons in range(1, 4):
+            if cf[cons] == cf[0]:
+                continue
+            for flip in (0, 4, 6):
+                links = []
+                for i in range(1, 4):
+                    l, r = (0, i) if not (flip >> (i - 1)) & 1 else (i, 0)
+                    links.append({"jt": "INNER", "l": f"R{l}", "r": f"R{r}", "li": ["k"], "ri": ["k"]})
+                out.append({"groups": [pl._root(i, cf[i]) for i in range(4)] +
+                            [{"name": "D1", "kind": "derived", "cfw": cf[cons], "features": {"f1": pl._feat([f"v{i}" for i in range(4)])}}],
+                            "request": ["f1"], "links": links})
+    return out
+
+
+def _judge_spec(spec: Dict[str, Any], n: int = 24) -> Optional[Dict[str, Any]]:
+    """Search for a failure of the property itself on one request: different outcomes between preparations, a plan that is not
+    well formed for the orchestrator, or an accepted plan that does not return."""
+    outs = [outcome(spec) for _ in range(n)]
+    for o in outs[1:]:
+        c = diff_class(outs[0], o)
+        if c in ("accept-vs-reject", "reject-reason", "steps"):
+            return {"kind": "det", "class": c, "outcomes": [{k: v for k, v in x.items() if k in ("accepted", "exc", "msg")} for x in (outs[0], o)]}
+    for o in outs[:3]:
+        if o["accepted"]:
+            r = run_observed(o["_sess"], timeout=BOUND_S)
+            if r["status"] == "hang":
+                return {"kind": "hang", "scans": r["scans"]}
+    return None
+
+
+def _planner_models(rep: vlib.Reporter, rng: random.Random, specs: List[Dict[str, Any]], seeds: List[int], big: bool, dist: Dict[str, Any]) -> bool:
+    """Planner models beyond Stage A against the real planner: Model/PlannerB.v (several frameworks, transform steps) and
+    Model/PlannerL.v (Links: trekker, inversion, postponed links, join steps), each evaluated under the iteration orders observed
+    in the same preparation.  A request on which model and planner disagree is then searched for a failure of the property
+    itself; the disagreement is reported either way."""
+    from harness import planner_b, planner_l
+    found = False
+    prB = vlib.build_props("PlannerB")
+    rep.proof(prB)
+    prL = vlib.build_props("PlannerL")
+    rep.proof(prL)
+    # --- Stage B1
+    b_specs = planner_b.witness_specs() + [planner_b.gen_any(rng) for _ in range(300 if big else 40)] + [s for s in specs if planner_b.in_fragment(s)]
+    disB = planner_b.check_plans(b_specs, "C04", run_accepted=(40 if big else 6), run_timeout=BOUND_S, hash_seeds=tuple(seeds[1:3]), in_process=2 if big else 1)
+    dist["planner_model_B"] = {k: v for k, v in planner_b.LAST_INFO.items() if k != "coq"}
+    # --- Links
+    sweep = hub_specs()
+    two = planner_l.all_two_root_specs()
+    l_specs = [s for s in specs if planner_l.in_fragment(s)] + (two if big else rng.sample(two, 60)) + \
+              (sweep if big else rng.sample(sweep, 70)) + [gen_cross3(rng) for _ in range(500 if big else 60)] + \
+              [planner_l.gen_tree(rng, single=False) for _ in range(200 if big else 20)] + \
+              [planner_l.gen_partial(rng) for _ in range(100 if big else 10)] + \
+              [planner_l.spec_diamond_consumer(), planner_l.spec_intermediate_consumer()]
+    disL = planner_l.check_plans(l_specs, "C04", hash_seeds=tuple(seeds[1:4] if big else seeds[1:2]))
+    dist["planner_model_L"] = {k: v for k, v in planner_l.LAST_INFO.items() if k != "per_seed"}
+    dist["planner_model_L"]["per_seed"] = {k: {a: b for a, b in v.items() if a != "coq"} for k, v in planner_l.LAST_INFO.get("per_seed", {}).items()}
+    seen: Set[str] = set()
+    for tag, dis in (("plannerB", disB), ("plannerL", disL)):
+        for d_ in dis:
+            key = json.dumps(d_.get("spec"), sort_keys=True)
+            if key in seen or len(seen) >= 8:
+                continue
+            seen.add(key)
+            w = _judge_spec(d_["spec"]) if d_.get("spec") else None
+            what = f"real planner and {tag} model disagree at {d_.get('stage')}: {str(d_.get('what'))[:300]}"
+            if w:
+                what += f"; on this request the property fails: {json.dumps(w)[:300]}"
+            rep.finding(f"{tag}:{d_.get('stage')}:{key}", what,
+                        {"kind": tag, "spec": d_.get("spec"), "stage": d_.get("stage"), "what": d_.get("what"), "witness": w,
+                         "correspondence": f"harness/{'planner_b' if tag == 'plannerB' else 'planner_l'}.check_plans"}, found_input=bool(w))
+            found = True
+    for nm, pr_ in (("PlannerB", prB), ("PlannerL", prL)):
+        if not pr_.ok and not found:
+            rep.finding(f"proof-broken-{nm}", f"Props/{nm}.v no longer checks", {"failed_files": pr_.failed_files, "log_tail": pr_.log[-2000:]}, found_input=False)
+    rep.count(len(b_specs) * 3 + len(l_specs) * 2)
+    return found
+
+
 def run(rep: vlib.Reporter, tier: str, seed: int) -> None:
     rng = random.Random(seed * 1021 + 4)
     install()
@@ -209,6 +314,7 @@ def run(rep: vlib.Reporter, tier: str, seed: int) -> None:
     if not prA.ok and not found:
         rep.finding("proof-broken-PlannerA", "Props/PlannerA.v no longer checks",
                     {"failed_files": prA.failed_files, "log_tail": prA.log[-2000:]}, found_input=False)
+    found = _planner_models(rep, rng, specs, seeds, big, dist) or found
     rep.count(len(pa_specs))
     rep.count(len(specs) * (3 + len(seeds)) + n_runs)
     rep.add("distribution", dist)
